@@ -199,6 +199,23 @@ pub fn run(op: &str, t: &[&str], v: &[Val], out: &mut Out) -> bool {
                 None => out.push("P"),
             }
         }
+        // workas A B : `x *= &b` on a receiver whose buffer has plenty of spare capacity, work + digest
+        "workas" => {
+            let (a, b) = (v[1].u(), v[2].u());
+            let mut x = slack_u(a);
+            #[cfg(num_bigint_verif)]
+            let w0 = num_bigint::verif_probe::work();
+            let p = guard(|| { x *= b; x });
+            #[cfg(num_bigint_verif)]
+            let w1 = num_bigint::verif_probe::work();
+            #[cfg(not(num_bigint_verif))]
+            let (w0, w1) = (0u64, 0u64);
+            out.push(&format!("n{}", w1 - w0));
+            match p {
+                Some(p) => out.push(&digest_u(&p)),
+                None => out.push("P"),
+            }
+        }
         // mulh A B : product reported as digest only (for very large operands)
         "mulh" => {
             let (a, b) = (v[1].u(), v[2].u());
